@@ -10,7 +10,7 @@ VERIF = Path(__file__).resolve().parent.parent
 dest = VERIF / 'seeded' / f'{prop}-{name}'
 dest.mkdir(parents=True, exist_ok=True)
 for f in src.iterdir():
-    if f.is_file():
+    if f.is_file() and src.resolve() != dest.resolve():
         shutil.copy(f, dest / f.name)
 demo = next((dest / n for n in ('demo.py', 'demo.sh') if (dest / n).exists()), None)
 wt = tempfile.mkdtemp(prefix='seed-')
